@@ -26,7 +26,7 @@ use emit::{
 };
 use vcommon::*;
 
-const SEGS: [&str; 7] = ["a", "aa", "b", "ab", "é", "a_1", "éa"];
+const SEGS: [&str; 15] = ["a", "aa", "b", "ab", "é", "a_1", "app", "app2", "app_util", "v1", "v10", "db", "http", "noisy", "other"];
 const LEVELS: [Level; 4] = [Level::Debug, Level::Info, Level::Warn, Level::Error];
 const WORDS: [(&str, usize); 6] = [("DEBUG", 0), ("DBG", 0), ("INFORMATION", 1), ("WARNING", 2), ("WRN", 2), ("ERROR", 3)];
 
@@ -209,7 +209,26 @@ fn gen_module(g: &mut Rng, regs: &[(String, Rule)]) -> (String, &'static str) {
     }
     let p = &regs[g.usize(regs.len())].0;
     let segs: Vec<&str> = p.split("::").collect();
-    match g.below(6) {
+    match g.below(9) {
+        6 => {
+            // an unregistered segment in the middle, followed by a segment that is registered
+            // as a child elsewhere: app::db registered, event from app::http::db
+            let mut v: Vec<&str> = segs.clone();
+            let at = if v.len() > 1 { 1 + g.usize(v.len() - 1) } else { 0 };
+            v.insert(at, *g.pick(&["http", "other", "v1", "zz9"]));
+            (v.join("::"), "detour")
+        }
+        7 => (format!("{}::{}", g.pick(&["other", "http", "b"]), p), "nested-under-unregistered"),
+        8 => {
+            // the registered name plus a digit / underscore suffix, with or without children
+            let mut v: Vec<String> = segs.iter().map(|s| s.to_string()).collect();
+            let i = if g.bool() { 0 } else { v.len() - 1 };
+            v[i].push_str(*g.pick(&["2", "0", "_util", "_"]));
+            if g.bool() {
+                v.push(g.pick(&["db", "http", "a"]).to_string());
+            }
+            (v.join("::"), "suffix-sibling")
+        }
         0 => (p.clone(), "equal"),
         1 => {
             let n = 1 + g.usize(segs.len());
@@ -219,7 +238,7 @@ fn gen_module(g: &mut Rng, regs: &[(String, Rule)]) -> (String, &'static str) {
         3 => {
             // textual prefix sibling: extend the last segment
             let mut s = p.clone();
-            s.push_str(g.pick(&["a", "_1", "é", "b"]));
+            s.push_str(*g.pick(&["a", "_1", "é", "b"]));
             if g.bool() {
                 s.push_str("::");
                 s.push_str(&gen_path(g, 2));
@@ -241,7 +260,7 @@ fn gen_module(g: &mut Rng, regs: &[(String, Rule)]) -> (String, &'static str) {
         _ => {
             let mut v: Vec<&str> = segs.clone();
             let i = g.usize(v.len());
-            v[i] = g.pick(&SEGS);
+            v[i] = *g.pick(&SEGS);
             (v.join("::"), "sibling")
         }
     }
@@ -340,6 +359,11 @@ fn map_case(r: &mut Report, seed: u64, index: u64) {
     if let Some(d) = &default {
         from_iter.default_min_level(d.real());
     }
+    // ... and through `FromIterator::collect`
+    let mut collected: MinLevelPathMap = regs.iter().map(|(p, rule)| (real_path(p, statics), rule.real())).collect();
+    if let Some(d) = &default {
+        collected.default_min_level(d.real());
+    }
     // de-duplicated (last registration of a path kept) and shuffled, default first
     let mut dedup: Vec<(String, Rule)> = Vec::new();
     for (p, rule) in regs.iter().rev() {
@@ -394,7 +418,7 @@ fn map_case(r: &mut Report, seed: u64, index: u64) {
             Some(_) => "registered",
         };
         let mut answers: Vec<(String, bool)> = Vec::new();
-        for (name, m) in [("registered-in-order", &map), ("from-iter", &from_iter), ("dedup-shuffled", &shuffled)] {
+        for (name, m) in [("min-level-calls", &map), ("min-by-path-filter", &from_iter), ("collect", &collected), ("dedup-shuffled", &shuffled)] {
             match eval_views(m, &module, static_mdl, &lvl, extra_first) {
                 Ok(v) => answers.extend(v.into_iter().map(|(view, a)| (format!("{}:{}", name, view), a))),
                 Err(msg) => r.violation(
@@ -534,6 +558,60 @@ fn text_forms(r: &mut Report) {
     r.exhaustive("every prefix of DEBUG/DBG/INFORMATION/WARNING/WRN/ERROR in upper, lower and mixed case, bare and with the trailers 1, 13, (4), against every minimum");
 }
 
+/// The sibling / detour scenarios named in the property's review, against every level, through
+/// both public construction paths.
+fn named_scenarios(r: &mut Report) {
+    let scenarios: [(&[&str], &[&str]); 6] = [
+        (&["app", "app::db"], &["app", "app::db", "app::db::pool", "app::http::db", "app::http", "app2", "app2::db", "app_util", "app_util::db", "db", "other::app::db"]),
+        (&["app", "app2", "app_util", "app::db"], &["app", "app2", "app_util", "app::db", "app2::db", "app_util::db", "app22", "ap", "app::db2"]),
+        (&["v1", "v10", "v1::db"], &["v1", "v10", "v1::db", "v10::db", "v100", "v1::http::db", "v"]),
+        (&["noisy"], &["noisy", "other::noisy", "noisy::other", "noisy2", "nois", "other"]),
+        (&["a", "aa", "a::a"], &["a", "aa", "a::a", "aa::a", "a::aa", "aaa", "a::a::a", "a::b::a"]),
+        (&["é", "é::db"], &["é", "éa", "é::db", "é::http::db", "éa::db"]),
+    ];
+    for (si, (paths, modules)) in scenarios.iter().enumerate() {
+        // every assignment of two distinct minimums keeps the rules distinguishable
+        for rot in 0..4usize {
+            let regs: Vec<(String, Rule)> = paths.iter().enumerate().map(|(i, p)| (p.to_string(), Rule { min: (i + rot) % 4, unleveled: None })).collect();
+            for default in [None, Some(Rule { min: (rot + 2) % 4, unleveled: None })] {
+                let incremental = build_map(&regs, &default, rot % 2 == 0);
+                let mut by_fn: MinLevelPathMap = min_by_path_filter(regs.iter().map(|(p, rule)| (real_path(p, rot % 2 == 1), rule.real())));
+                let mut collected: MinLevelPathMap = regs.iter().rev().map(|(p, rule)| (real_path(p, false), rule.real())).collect();
+                if let Some(d) = &default {
+                    by_fn.default_min_level(d.real());
+                    collected.default_min_level(d.real());
+                }
+                for module in modules.iter() {
+                    for l in 0..4usize {
+                        r.eval();
+                        r.observe("named-scenarios:pairs", 1);
+                        let lvl = Lvl::Typed(l);
+                        let rule = effective(&regs, &default, module);
+                        let want = rule.map(|rule| l >= rule.min).unwrap_or(true);
+                        r.nontrivial(&("named", si, rot, default.is_some(), module, l));
+                        for (name, m) in [("min-level-calls", &incremental), ("min-by-path-filter", &by_fn), ("collect", &collected)] {
+                            let case = || json!({"section": "named", "registrations": format!("{:?}", regs), "default": format!("{:?}", default), "module": module, "lvl": lname(l)});
+                            match eval_views(m, module, false, &lvl, false) {
+                                Ok(v) => {
+                                    if let Some((view, got)) = v.iter().find(|(_, a)| *a != want) {
+                                        r.violation(
+                                            &format!("C17:path-map:named:{}:{}:{}", if want { "rejects" } else { "accepts" }, paths.join("+"), name),
+                                            &format!("registrations {:?} default {:?}: module {:?} at {} answered {} through {}:{}, the rule in effect ({:?}) says {}", regs, default, module, lname(l), got, name, view, rule, want),
+                                            case(),
+                                        );
+                                    }
+                                }
+                                Err(msg) => r.violation("C17:panic:path-map:named", &format!("matches panicked: {}", msg), case()),
+                            }
+                        }
+                    }
+                }
+            }
+        }
+    }
+    r.exhaustive("the named sibling / detour scenarios (app/app2/app_util/app::db, v1/v10, noisy, a/aa/a::a, é) x 4 level assignments x with/without default x every listed module x every level x 3 construction paths");
+}
+
 fn main() {
     let args = Args::parse();
     let mut r = Report::new(
@@ -552,12 +630,14 @@ fn main() {
         match case.get("section").and_then(|v| v.as_str()) {
             Some("map") => map_case(&mut r, seed, index),
             Some("filter") => filter_case(&mut r, seed, index),
+            Some("named") => named_scenarios(&mut r),
             _ => text_forms(&mut r),
         }
         std::process::exit(r.finish());
     }
 
     text_forms(&mut r);
+    named_scenarios(&mut r);
     let n_map = args.n(20_000, 1_600_000);
     par_cases(&mut r, &args, n_map, |i, r| map_case(r, seed, i));
     let n_filter = args.n(4_000, 200_000);
